@@ -37,6 +37,8 @@ def run(ctx, chk):
     from . import c02
     chk.rule("M6", "a memory table's regions and descriptors are only ever extended together on the sending side (C02/D9)")
     c02.d9(fb, Renamed(chk, {"D9": "M6"}))
+    from . import xlist
+    xlist.apply("C13", fb, chk)
     n = lambda r: len([i for i in chk.instances if i[0] == r])
     chk.floor("M1", n("M1"), 3)
     chk.floor("M2", n("M2"), 6)
